@@ -18,6 +18,7 @@ import (
 func (p *Program) origins(v ssa.Value) []string {
 	set := map[string]bool{}
 	seen := map[ssa.Value]bool{}
+	localBind := map[ssa.Value]ssa.Value{}
 	var rec func(v ssa.Value, depth int) []string
 	rec = func(v ssa.Value, depth int) []string {
 		v = strip(v)
@@ -28,6 +29,9 @@ func (p *Program) origins(v ssa.Value) []string {
 		defer delete(seen, v)
 		switch x := v.(type) {
 		case *ssa.Parameter:
+			if a, ok := localBind[x]; ok {
+				return rec(a, depth+1)
+			}
 			if p.ctxG != nil {
 				if a, ok := p.ctxG.Bind[x]; ok {
 					return rec(a, depth+1)
@@ -84,6 +88,35 @@ func (p *Program) origins(v ssa.Value) []string {
 			}
 			return out
 		case *ssa.Extract:
+			// a tuple-returning pure projection helper of the module (no stores, a handful of instructions): the k-th result is
+			// what its returns yield with the parameters bound to this call's arguments
+			if c, isC := x.Tuple.(*ssa.Call); isC {
+				if y := c.Call.StaticCallee(); y != nil && p.inModule(y) && pureProjection(y) && len(c.Call.Args) == len(y.Params) {
+					saved := map[ssa.Value]ssa.Value{}
+					for i, prm := range y.Params {
+						if old, had := localBind[prm]; had {
+							saved[prm] = old
+						}
+						localBind[prm] = c.Call.Args[i]
+					}
+					var out []string
+					for _, b := range y.Blocks {
+						if ret, ok := b.Instrs[len(b.Instrs)-1].(*ssa.Return); ok && x.Index < len(ret.Results) {
+							out = append(out, rec(retOperand(ret, x.Index), depth+1)...)
+						}
+					}
+					for _, prm := range y.Params {
+						if old, had := saved[prm]; had {
+							localBind[prm] = old
+						} else {
+							delete(localBind, prm)
+						}
+					}
+					if len(out) > 0 {
+						return out
+					}
+				}
+			}
 			var out []string
 			for _, b := range rec(x.Tuple, depth+1) {
 				out = append(out, fmt.Sprintf("#%d<-%s", x.Index, b))
@@ -223,7 +256,34 @@ func (g *IG) loopExactlyOnceA(nodes map[int]bool, avoid map[edge]bool) (bool, st
 		return false, "no such call"
 	}
 	why := "the call is not inside a loop"
+	// a nil test of the iterated element itself: nothing can be told to a nil element, skipping it is not "leaving out" an
+	// element (the tables iterated here never hold nil; a defensive `if elem == nil { continue }` changes nothing)
+	nilElem := map[*ssa.If]bool{}
+	avoid2 := map[edge]bool{}
+	for e := range avoid {
+		avoid2[e] = true
+	}
 	for _, ifi := range g.ifs() {
+		for _, outcome := range []bool{true, false} {
+			f, ok := condFact(ifi.Cond, outcome)
+			if !ok || !f.IsNil {
+				continue
+			}
+			if ex, isEx := strip(f.X).(*ssa.Extract); isEx {
+				if _, isNext := ex.Tuple.(*ssa.Next); isNext {
+					nilElem[ifi] = true
+					if f.Op == token.EQL {
+						avoid2[g.branchEdge(ifi, outcome)] = true
+					}
+				}
+			}
+		}
+	}
+	avoid = avoid2
+	for _, ifi := range g.ifs() {
+		if nilElem[ifi] {
+			continue
+		}
 		hn := g.Idx[ifi]
 		for _, outcome := range []bool{true, false} {
 			e := g.branchEdge(ifi, outcome)
@@ -306,4 +366,31 @@ func spilledParam(a *ssa.Alloc) ssa.Value {
 		}
 	}
 	return val
+}
+
+// pureProjection: a small module function without effects (no stores, map updates, sends, go/defer, no calls other than
+// interface / accessor calls on its parameters) returning at least two results.
+func pureProjection(fn *ssa.Function) bool {
+	if fn.Signature.Results().Len() < 2 || len(fn.Blocks) == 0 || len(fn.Blocks) > 4 {
+		return false
+	}
+	n := 0
+	for _, b := range fn.Blocks {
+		for _, in := range b.Instrs {
+			n++
+			switch in.(type) {
+			case *ssa.Store, *ssa.MapUpdate, *ssa.Send, *ssa.Go, *ssa.Defer, *ssa.Panic, *ssa.RunDefers:
+				return false
+			case *ssa.Call:
+				c := in.(*ssa.Call)
+				if !c.Call.IsInvoke() {
+					return false
+				}
+				if _, isP := strip(c.Call.Value).(*ssa.Parameter); !isP {
+					return false
+				}
+			}
+		}
+	}
+	return n <= 16
 }
